@@ -530,12 +530,11 @@ proof {  assert(old(self).writer.out().push(if value { 0x1Fu8 } else { 0x10u8 })
 
         if self.ok {
             
-            let r = self.writer.write_u8(if value {
+            let _ = self.writer.write_u8(if value {
                 FSM_PROTOCOL_TYPE_BOOLEAN_TRUE
             } else {
                 FSM_PROTOCOL_TYPE_BOOLEAN_FALSE
             });
-            self.eval_result(r);
         }
     }
 
